@@ -219,7 +219,11 @@ func (it *Interp) schedule(blocked bool) {
 			it.deadlock("all goroutines are blocked")
 		}
 		next := cands[0]
-		if len(cands) > 1 {
+		if len(cands) > 1 && s.bound < 0 {
+			// deterministic mode: no interleavings are explored; the running goroutine continues until
+			// it blocks, then the runnable goroutine with the lowest id runs
+			next = cands[0]
+		} else if len(cands) > 1 {
 			if curRunnable && s.preemptions >= s.bound {
 				next = cur
 			} else {
@@ -493,7 +497,7 @@ func (it *Interp) selectStmt(fr *frame, instr *ssa.Select) Value {
 			continue
 		}
 		k := rs[0]
-		if len(rs) > 1 {
+		if len(rs) > 1 && it.sched.bound >= 0 {
 			k = rs[it.choose('s', len(rs))]
 		}
 		st := instr.States[k]
@@ -575,6 +579,7 @@ func init() {
 		it := fr.it
 		it.sched.enabled = true
 		it.sched.bound = argInt(args[0])
+		it.path.concurrent = true
 		return nil
 	})
 	reg(rtPkg+"Yield", func(fr *frame, args []Value) Value { fr.it.yield(fr); return nil })
@@ -603,18 +608,34 @@ func init() {
 		it := fr.it
 		d := durArg(it, args[0])
 		target := it.vtime + d
-		// let every timer up to the target fire, giving other goroutines the chance to run
+		drain := func() {
+			if it.cur == nil || !it.sched.enabled {
+				return
+			}
+			me := it.cur
+			it.blockUntil(func() bool {
+				for _, g := range it.sched.gs {
+					if g != me && !g.done && (g.waiting == nil || g.waiting()) {
+						return false
+					}
+				}
+				return true
+			})
+		}
+		// every timer up to the target fires in order; after each, the goroutines it woke run until they block
 		for {
 			when, ok := it.nextTimer()
 			if !ok || when > target {
 				break
 			}
-			it.vtime = when
+			if when > it.vtime {
+				it.vtime = when
+			}
 			it.fireTimers()
-			it.yield(fr)
+			drain()
 		}
 		it.vtime = target
-		it.yield(fr)
+		drain()
 		return nil
 	})
 	reg("runtime.Goexit", func(fr *frame, args []Value) Value { panic(killSignal{}) })
